@@ -183,7 +183,8 @@ pub fn jobs(tier: Tier) -> Vec<Job> {
             if tier == Tier::Quick && seq.len() == 3 && (seq[0] * 5 + seq[1] * 3 + seq[2]) % 2 != 0 {
                 continue; // quick visits half of the length-3 blocks (thorough: all)
             }
-            let b = if tier == Tier::Quick && seq.len() == 2 && matches!(spec, SpecId::CANCUN) { 2 } else { bound };
+            let on_x = seq.iter().all(|&t| templates[t].tags.contains(&"X"));
+            let b = if tier == Tier::Quick && seq.len() == 2 && matches!(spec, SpecId::CANCUN) && on_x { 2 } else { bound };
             v.push(pipeline_job("c08-lifecycle", &case, &RunCfg::parallel(2), COARSE, b, false));
         }
     }
